@@ -633,7 +633,11 @@ func (p *InlineParser) parseBackslash(state *inlineState, start int) (end int) {
 		})
 		return end
 	}
-	end = start + 2
+	// Not an escape: the backslash is literal
+	// and the next byte is tokenized normally
+	// (it may be the first byte of a multi-byte character
+	// or the start of a hard line break).
+	end = start + 1
 	state.addToRoot(&Inline{
 		kind: TextKind,
 		span: Span{
